@@ -20,7 +20,9 @@ CHECKS = {
                   "tick preceding the most recent tick (history-only reference), a counter dies for good two ticks after something at least as "
                   "new was accepted, newer-than-seen is always accepted; lifted to CryptoCore.decrypt / every_second / rotate_key. Tied to the "
                   "code by running real CryptoCore pairs and the extracted model on the same histories each run; the history-only reference "
-                  "evaluated on the real accept/reject outcomes is the failing-input oracle. Node-level housekeeping tick is covered by the C08/C10 node model.",
+                  "evaluated on the real accept/reject outcomes is the failing-input oracle. Connection and node level: PeerCrypto::every_second moves the window "
+                  "of every key slot whatever handshake object and rotation do in that second (TickProofs.v); in every reachable node state the peer map "
+                  "lists no address twice and one housekeeping pass ticks every peer exactly once (TickPeersProofs.v, invariant over all node steps).",
              technique="Coq proof (invariant by induction over histories) + executed model/implementation correspondence", ref="5 (C03)"),
  "C11": dict(text="Theorems C11_* (Properties/C11.v): Range::matches equals the bit-by-bit prefix specification for every byte string and every "
                   "prefix 0..255 (byte-level facts by an in-kernel sweep of all 65536 byte pairs lifted with forallb_forall, the rest by induction); an "
@@ -33,7 +35,9 @@ CHECKS = {
                   "other peers' live entries untouched, cached decisions of the peer gone if anything was dropped; unrefreshed claims vanish at the "
                   "first sweep after expiry; remove_claims leaves no claim or cached/learned address for the peer - for every table state, list and "
                   "time > 0 (induction over the claim vector, including swap_remove). Tied to the code by the executed correspondence; oracle: "
-                  "history-based reference after every step. Node-level removal paths are covered by the node model.",
+                  "history-based reference after every step. Node level: every peer-removal path drops the routes in the same step (RoutesProofs.v), and in EVERY "
+                  "reachable node state every claim and every cached/learned address belongs to a current peer, so no lookup ever selects a non-peer "
+                  "(NextHopProofs.v: invariant RT /\\ PI preserved by every step of the node model, induction over arbitrary event sequences).",
              technique="Coq proof (invariant of the set_claims loop by induction) + executed model/implementation correspondence", ref="5 (C12)"),
  "C17": dict(text="Theorems C17_* (Properties/C17.v), with SHA-512 modelled bit-exact in Gallina (no hash oracle): base-62 text round trip to the "
                   "leading-zero-stripped string (canonical numerals, uniqueness), masking involution for every length incl. counter wrap, "
